@@ -160,6 +160,21 @@ def order_geodesic(ctx, obs, rule='ORDER'):
             obs.check(any(isinstance(x, ast.Call) and _leaf(x.func) == 'minmax_transform' for x in ast.walk(e)), rule, q,
                       'the graph is built from the min-max transformed RDM', f'graph source `{ast.unparse(e)[:70]}`', '',
                       where(prog, f, n))
+    # networkx reads a ZERO entry of an adjacency matrix as "no edge".  After min-max scaling the smallest dissimilarity of every
+    # RDM is exactly 0, so a graph made with from_numpy_array alone never contains the edge of the closest pair: its geodesic length
+    # becomes a detour and paths through it are lost.  The zero-length edges have to be put back (add_weighted_edges_from /
+    # add_edge), or the graph has to be built from an explicit edge list.
+    for n in ast.walk(lp):
+        if isinstance(n, ast.Call) and _leaf(n.func) in ('from_numpy_array', 'from_numpy_matrix', 'from_scipy_sparse_array'):
+            con = 'edges of length 0 (the closest pair after min-max scaling) are part of the graph'
+            put_back = [c for c in ast.walk(lp) if isinstance(c, ast.Call) and _leaf(c.func) in
+                        ('add_weighted_edges_from', 'add_edges_from', 'add_edge')]
+            if put_back:
+                obs.ok('API', q, con, f'`{norm(put_back[0])[:60]}`', where(prog, f, put_back[0]))
+            else:
+                obs.bad('API', q, con, f'`{norm(n)[:60]}` builds the graph from the matrix alone: networkx takes a zero entry as a missing edge, '
+                        f'and the min-max transform maps the smallest dissimilarity to exactly 0 - the closest pair has no edge, its geodesic '
+                        f'distance is the length of a detour instead of 0', where(prog, f, n))
     # the edges removed are those of weight 1 (the maximum after min-max)
     ok = any(isinstance(n, ast.Compare) and isinstance(n.ops[0], ast.Eq) and isinstance(n.comparators[0], ast.Constant)
              and n.comparators[0].value == 1 for n in ast.walk(lp))
